@@ -82,6 +82,43 @@ def jobs_C07(tier, scale):
                  label="complete matrix {entry point x argument position x bad value x flags} at the final state of each history")]
 
 
+ALL8 = ["DS", "US", "DL", "UL", "DM", "UM", "DW", "UW"]
+
+
+def enum_job(executor, name, cfg, tier, label, shards=None, config="san"):
+    return dict(engine="enum", executor=executor, config=config, gen=name, cfg={k: str(v) for k, v in cfg.items()}, shards=shards or 16, label=label)
+
+
+def jobs_C08(tier, scale):
+    cl = _classes(ALL8, ["int", "string"])
+    pads = "0:0;1:0;0:2;2:1"
+    if tier == "quick":
+        return [enum_job("iter", "graphs", dict(prop="C08", classes=cl, dmin=0, dmax=3, umin=0, umax=4, orders=3, pads=pads, writers_n=2), tier,
+                         "every directed graph on 0..3 and undirected on 0..4 vertices x 3 insertion orders x 4 isolated-vertex paddings, 10 class/label configs")]
+    return [enum_job("iter", "graphs", dict(prop="C08", classes=cl, dmin=0, dmax=3, umin=0, umax=4, orders=4, pads=pads, writers_n=3), tier, "small scopes, all paddings"),
+            enum_job("iter", "graphs", dict(prop="C08", classes=_classes(["DS", "DL", "DM", "DW"], ["int"]), dmin=4, dmax=4, orders=2, pads="0:0;1:1", writers_n=-1), tier,
+                     "every directed graph on 4 vertices (65536) x 2 orders x 2 paddings x 4 classes"),
+            enum_job("iter", "graphs", dict(prop="C08", classes=_classes(["US", "UL", "UM", "UW"], ["int"]), umin=5, umax=5, orders=2, pads="0:0;1:1", writers_n=-1), tier,
+                     "every undirected graph on 5 vertices (32768) x 2 orders x 2 paddings x 4 classes")]
+
+
+def graph_job(prop, executor, classes, tier, scale, quick, thorough, label, config="san", max_size=None, **cfg):
+    c = dict(prop=prop, classes=classes)
+    c.update({k: str(v) for k, v in cfg.items()})
+    return dict(engine="pbt", executor=executor, config=config, gen="graph", cfg=c, cases=_n(tier, quick, thorough, scale), shards=8 if tier == "quick" else 16,
+                max_size=max_size or (60 if tier == "quick" else 100), label=label)
+
+
+def jobs_C09(tier, scale):
+    cl = _classes(ALL8)
+    jobs = [graph_job("C09", "conv", cl, tier, scale, 12000, 300000, "generated graphs (loops, reciprocal pairs with different labels, repeated pairs, isolated vertices)", nmax=9, pads=1),
+            enum_job("conv", "graphs", dict(prop="C09", classes=_classes(["DS", "DL", "DM", "DW"], ["int", "struct"]), dmin=0, dmax=2 if tier == "quick" else 3, orders=2, pads="0:0;1:1"), tier,
+                     "every directed graph on <=%d vertices" % (2 if tier == "quick" else 3)),
+            enum_job("conv", "graphs", dict(prop="C09", classes=_classes(["US", "UL", "UM", "UW"], ["int", "struct"]), umin=0, umax=3 if tier == "quick" else 4, orders=2, pads="0:0;1:1"), tier,
+                     "every undirected graph on <=%d vertices" % (3 if tier == "quick" else 4))]
+    return jobs
+
+
 RULE_HIST = ("rapidcheck-generated call histories (0-%d ops, sizes 0-12) executed against the real class and an independent std::map model; "
              "all public observers compared after every step. ")
 
@@ -115,6 +152,21 @@ PROPS = {
                 "(std::out_of_range resp. std::invalid_argument), exact snapshot of all observers identical before/after, no sanitizer or libstdc++ debug-mode report. "
                 "Non-trivial: a rejected call in a state with >=1 edge followed by >=1 valid mutator.",
                 assumptions=["find...FromPredecessors helpers are not part of the matrix (they take a caller-supplied table, not named by the property)"]),
+    "C08": dict(jobs=jobs_C08, min_nontrivial=dict(quick=1000, thorough=10000), exhaustive=True,
+                exhaustive_scope=dict(quick="all loop-allowing directed graphs on n<=3 and undirected on n<=4, every class", thorough="plus directed n=4 (65536) and undirected n=5 (32768)"),
+                rule="bounded-exhaustive enumeration of every edge set (bit mask over all pairs, self-loops included) for the stated sizes, each built in several insertion orders and "
+                "orientations and padded with isolated vertices in front (index shift) and behind (resize); all eight classes. Oracle: for(v:g) yields 0..n-1 by pre- and post-increment; "
+                "edges() traversed with ++it, it++ (result must denote the old position), twice and by range-for gives four identical sequences equal as a multiset to the model; "
+                "begin()==end() iff no edge; step cap; all observers, getReversedGraph/getDirectedGraph and the text/binary writers defined and right. "
+                "Non-trivial: n=0, no edge, first or last vertex isolated, or a neighbour list not in ascending order; distinct by case text.",
+                assumptions=["insertion orders are a fixed family of permutations, not all n! orders"]),
+    "C09": dict(jobs=jobs_C09, min_nontrivial=dict(quick=500, thorough=5000), build_error_is_violation=True,
+                rule="rapidcheck-generated graphs of all eight classes (labels int/string/struct; asymmetric labels on reciprocal pairs, loops, isolated and zero vertices, repeated pairs) "
+                "plus every topology of the small exhaustive scopes. Oracle over all pairs: getReversedGraph = flipped edges with labels, twice = identity; getDirectedGraph = both orientations "
+                "(one for a loop) with the pair's label, nothing else; undirected-from-directed joins exactly the pairs connected either way with one of their labels; u->d->u identity; "
+                "constructors from vector/list/deque/forward_list/set/multiset: size 1+max index (0 if empty), result == resize + one add per element, same observations; "
+                "copy construction/assignment equal and independent both ways. Non-trivial: a non-loop edge with a non-default label crosses a conversion, or a constructor input with a repeated pair.",
+                assumptions=["set/multiset containers are skipped for the struct label (no operator<)"]),
     "C16": dict(jobs=jobs_C16, min_nontrivial=dict(quick=300, thorough=3000),
                 rule=RULE_HIST % 80 + "Non-trivial: a forced duplicate exists and is later removed by removeDuplicateEdges or removeEdge.",
                 assumptions=["all copies of a pair carry the same label/weight/multiplicity (by construction)", "multigraph: weaker reading (deduplicated graph holds each pair once with the multiplicity its copies carried)"]),
